@@ -74,6 +74,9 @@ def gen_case(rng, big=False, force_neg=False):
         # order matters: a wildcard followed by the re-inclusion of one file name (the last matching pattern decides)
         t = rng.choice(names)
         excludes = ["*" + os.path.splitext(t)[1], "!" + os.path.basename(t)]
+        # the re-included file has a twin with another extension, so that its membership shows in the report
+        other = rng.choice([e for e in EXTS if e != os.path.splitext(t)[1]])
+        files["zz_twin_of_reincluded" + other] = files[t]
         if rng.random() < 0.3:
             excludes.append("*" + rng.choice(EXTS))
     return {"files": files, "links": links, "hard": hard, "nonsrc": nonsrc, "excludes": excludes}
